@@ -81,3 +81,40 @@ pub fn dj(d: &Dec) -> serde_json::Value {
 pub fn jd(v: &serde_json::Value) -> Dec {
     Dec::parse(v.as_str().expect("operand must be a string")).expect("bad operand")
 }
+
+/// Digit tails of every length 0..=max_len that are all zero, or all zero except one non-zero digit at
+/// one position (every position).  Used behind a "deciding" digit (0, 5, 4, 9) so that a scan of the
+/// discarded digits that skips or mis-indexes any position (chunked scans, off-by-one slices) changes the
+/// rounding decision.
+pub fn sparse_tails(lens: &[usize]) -> Vec<String> {
+    let mut out = vec![];
+    for &l in lens {
+        out.push("0".repeat(l));
+        for j in 0..l {
+            for d in ['1', '9'] {
+                let mut t: Vec<char> = "0".repeat(l).chars().collect();
+                t[j] = d;
+                out.push(t.into_iter().collect());
+            }
+        }
+    }
+    out
+}
+
+/// m * 2^a * 5^b for every a in `az`, b in `bz`, m in `ms`: the natural alphabet wherever decimal trailing
+/// zeros (= min(v2, v5)) or binary-float images (m * 5^k) matter
+pub fn two_five_ints(az: &[u32], bz: &[u32], ms: &[i64]) -> Vec<(u32, u32, BigInt)> {
+    let mut out = vec![];
+    for &a in az {
+        for &b in bz {
+            let mut v = BigInt::from(1) << a as usize;
+            for _ in 0..b {
+                v *= 5;
+            }
+            for &m in ms {
+                out.push((a, b, &v * m));
+            }
+        }
+    }
+    out
+}
